@@ -49,12 +49,10 @@ def sequential_case(rng):
             eng = engines[e]
             if how == "direct":
                 names.append(eng.get_relation_name(pref))
-            elif how == "leaf" or isinstance(eng, sql.Engine):
+            elif how == "leaf":
                 names.append(dr.LeafRelation(eng, frozenset({K(1)}), payload=object(), name_prefix=pref).name)
             else:
-                leaf = eng.make_leaf({K(1)}, payload=iteration.RowSequence([]), name="fixed")
-                names.append(leaf.with_rows_satisfying(dr.ColumnExpression.reference(K(1)).eq(dr.ColumnExpression.literal(1)))
-                             .materialized(name_prefix=pref).name)
+                names.append(materialized_name(eng, pref))
     finally:
         engine_module.uuid = saved
     q = lambda s: '"' + s + '"'
@@ -112,23 +110,29 @@ def same_name_engines(rng):
             how = rng.randrange(3)
             if how == 0:
                 out.append((pref, eng.get_relation_name(pref)))
-            elif how == 1 or isinstance(eng, sql.Engine):
+            elif how == 1:
                 out.append((pref, dr.LeafRelation(eng, frozenset(), payload=object(), name_prefix=pref).name))
             else:
-                leaf = eng.make_leaf({K(1)}, payload=iteration.RowSequence([]), name="fixed")
-                out.append((pref, leaf.with_rows_satisfying(dr.ColumnExpression.reference(K(1)).eq(dr.ColumnExpression.literal(1)))
-                            .materialized(name_prefix=pref).name))
+                out.append((pref, materialized_name(eng, pref)))
     return out
+
+
+def materialized_name(eng, pref):
+    """The name of a new materialization requested with a prefix, in either kind of engine."""
+    leaf = dr.LeafRelation(eng, frozenset({K(1)}), payload=iteration.RowSequence([]) if isinstance(eng, iteration.Engine) else object(),
+                           name="fixed")
+    m = leaf.with_rows_satisfying(dr.ColumnExpression.reference(K(1)).eq(dr.ColumnExpression.literal(1))).materialized(name_prefix=pref)
+    while not isinstance(m, dr.Materialization):        # the SQL engine wraps it in a SELECT marker
+        m = m.target
+    return m.name
 
 
 def request(eng, how, pref):
     if how == "direct":
         return eng.get_relation_name(pref)
-    if how == "leaf" or isinstance(eng, sql.Engine):
+    if how == "leaf":
         return dr.LeafRelation(eng, frozenset({K(1)}), payload=object(), name_prefix=pref).name
-    leaf = eng.make_leaf({K(1)}, payload=iteration.RowSequence([]), name="fixed")
-    return leaf.with_rows_satisfying(dr.ColumnExpression.reference(K(1)).eq(dr.ColumnExpression.literal(1))) \
-        .materialized(name_prefix=pref).name
+    return materialized_name(eng, pref)
 
 
 def forced_interleavings():
